@@ -85,6 +85,11 @@ class PyLib:
             L.append('  bool operator == (const %s &o) const;' % c['name'])
             L.append('  int operator [] (int i) const;')
             L.append('  Color next_color(Color c) const;')
+            L.append('  const %s &cself_%s() const;' % (c['name'], c['name']))
+            L.append('  int mut_%s(%s &other);' % (c['name'], c['name']))
+            L.append('  int mut_%s(int x);' % c['name'])
+            L.append('  int scale_%s(int factor);' % c['name'])
+            L.append('  int scale_%s(int factor, int offset);' % c['name'])
             for s in c['ovsets']:
                 for j, o in enumerate(s['overloads']):
                     L.append('  int %s(%s);' % (s['name'], ', '.join(self.ctype(cat, cls, i, j % 2) for i, (cat, cls) in enumerate(o['vec']))))
@@ -131,6 +136,11 @@ class PyLib:
             L.append('int %s::operator + (const %s &o) const { return v_%s + o.v_%s; }' % (n, n, n, n))
             L.append('bool %s::operator == (const %s &o) const { return v_%s == o.v_%s; }' % (n, n, n, n))
             L.append('int %s::operator [] (int i) const { return v_%s + i; }' % (n, n))
+            L.append('const %s &%s::cself_%s() const { return *this; }' % (n, n, n))
+            L.append('int %s::mut_%s(%s &other) { other.v_%s += 1000; return 1; }' % (n, n, n, n))
+            L.append('int %s::mut_%s(int x) { return 2; }' % (n, n))
+            L.append('int %s::scale_%s(int factor) { return factor * 10; }' % (n, n))
+            L.append('int %s::scale_%s(int factor, int offset) { return factor * 10 + offset; }' % (n, n))
             L.append('%s::Color %s::next_color(Color c) const { return c == red ? green : (c == green ? blue : red); }' % (n, n))
             for s in c['ovsets']:
                 for j, o in enumerate(s['overloads']):
